@@ -1,0 +1,11 @@
+//go:build verif
+
+package postgres
+
+import (
+	"database/sql"
+
+	"github.com/kubeflow/katib/pkg/db/v1beta1/common"
+)
+
+func NewWithDBForVerif(db *sql.DB) common.KatibDBInterface { return &dbConn{db: db} }
